@@ -1,7 +1,7 @@
 //! C17 — no secret key, derived key or correct signature of a refused request leaks through errors,
 //! Debug/Display renderings or log records at debug level or above.
 
-use crate::defect::{build_case, INJECTORS};
+use crate::defect::INJECTORS;
 use crate::exec::{build_request, capture_logs, execute, install_logger, take_logs, Outcome};
 use crate::gen::{gen_cfg, gen_logical, GenOpts, Speller};
 use crate::json::J;
@@ -326,7 +326,21 @@ fn renderings(case: &Case, date_str: &str, t: &mut Tally) -> Vec<(String, String
     v
 }
 
-fn scan_case(t: &mut Tally, case: &Case, label: &str) {
+/// Defects that leave the signature the client computed a valid one: take the defect away (the stray parameter, the stale
+/// clock, the provider's failure, the requirement the signer did not know of) and the request is accepted with it.
+const SIGNATURE_STAYS_VALID: [&str; 9] = [
+    "param-without-equals",
+    "expired",
+    "not-yet-valid",
+    "provider-not-ready-error",
+    "provider-answer-error",
+    "host-not-signed",
+    "always-required-not-signed",
+    "conditional-present-not-signed",
+    "prefixed-present-not-signed",
+];
+
+fn scan_case_with(t: &mut Tally, case: &Case, label: &str, presented_valid: Option<&str>) {
     capture_logs(true);
     let rec = execute(case);
     let logs = take_logs();
@@ -393,6 +407,18 @@ fn scan_case(t: &mut Tally, case: &Case, label: &str) {
                 pats.push(("correct signature of a refused request".into(), sig.clone().into_bytes()));
                 pats.push(("correct signature of a refused request (upper case)".into(), sig.to_uppercase().into_bytes()));
                 sig_pat = Some(sig.clone().into_bytes());
+            }
+        }
+    }
+    if refused && log_only.is_none() && full_only.is_none() && sig_pat.is_none() {
+        // refused before the reference model gets as far as a signature: the generator still knows whether what the client
+        // presented is the valid signature of this request minus its defect
+        if let Some(sig) = presented_valid {
+            let sb = sig.as_bytes();
+            let has = |h: &[u8]| h.windows(sb.len()).any(|w| w == sb);
+            if has(&case.wire.uri) || case.wire.headers.iter().any(|(_, v)| has(v)) || has(&case.wire.body) {
+                log_only = Some(sb.to_vec());
+                t.count("refused_before_the_comparison_with_a_signature_that_stays_valid");
             }
         }
     }
@@ -557,13 +583,23 @@ fn shard(seed: u64, shard: u64, n: u64) -> Tally {
             3 => vec![wrong_sig],
             _ => vec![r.usize_below(INJECTORS.len()), r.usize_below(INJECTORS.len())],
         };
-        let (case, applied) = build_case(&l, &cfg, &chosen, &mut r, &mut sp);
+        let (case, applied, facts) = crate::defect::build_case_facts(&l, &cfg, &chosen, &mut r, &mut sp);
         let label = if applied.is_empty() {
             "W-sign".to_string()
         } else {
             format!("W-defect {:?}", applied)
         };
-        scan_case(&mut t, &case, &label);
+        let stays_valid = !applied.is_empty() && applied.iter().all(|a| SIGNATURE_STAYS_VALID.contains(a));
+        scan_case_with(
+            &mut t,
+            &case,
+            &label,
+            if stays_valid {
+                Some(facts.sig.as_str())
+            } else {
+                None
+            },
+        );
     }
     crate::exec::set_thread_log_max(log::LevelFilter::Trace);
     t
@@ -648,11 +684,12 @@ pub fn run(tier: Tier) -> i32 {
     ctx.gate("refusals of a prefix / one-digit-off variant of the correct signature scanned", tally.get("near_miss_of_correct_signature_refused"), tier.n(500, 10_000));
     ctx.gate("requests refused for another reason although their signature is correct (stale, scope, requirements, provider failure)", tally.get("decorated_correct_signature_refused"), tier.n(2000, 60_000));
     ctx.gate("stale / post-dated refusals whose correct signature the oracle knows", tally.get("stale_or_post_dated_refusals_whose_correct_signature_is_known"), tier.n(1000, 30_000));
+    ctx.gate("requests refused before the comparison (stray Authorization parameter, unsigned required header …) whose presented signature stays valid", tally.get("refused_before_the_comparison_with_a_signature_that_stays_valid"), tier.n(1000, 30_000));
     ctx.gate("public key / request / response types formatted", tally.get("public_key_types_formatted"), tier.n(10_000, 300_000));
     ctx.gate("log records at debug level or above judged", tally.get("log_records_judged/DEBUG") + tally.get("log_records_judged/INFO") + tally.get("log_records_judged/WARN") + tally.get("log_records_judged/ERROR"), tier.n(100, 1000));
     let rep = Report {
         level: "exploration",
-        rule: "Taint scan. Every execution of W-sign / W-defect (no defect, each injector alone — a refusal at every rank incl. every provider failure kind —, random pairs; both carriers, all option sets) runs with a capturing log::Log at max level Trace. Scanned: the error's Display and Debug plus its alternate / hex-flavoured / width / precision renderings and its source() chain, {} {:#} {:80} {:.8} {:?} {:#?} {:x?} {:#x?} {:X?} of KSecretKey…KSigningKey and of KeyTooLongError (also boxed and converted), GetSigningKeyRequest/Response, SigV4AuthenticatorResponse, (unstable feature) CanonicalRequest, AuthParams, SigV4Authenticator, returned principal/session, and every captured log record of level Error/Warn/Info/Debug, including records emitted while keys are constructed and values formatted (trace records are counted and used only as the control); a quarter of the shards run with the logger at Debug, as a deployment would. Patterns: secret, 'AWS4'+secret, kDate, kRegion, kService, kSigning — raw, hex, HEX, separated hex (`:`/space/`0x`/`\\x`, found after separators are stripped), base64 (std / url-safe, three alignments), decimal and hex lists ({:?} {:x?} {:X?} {:02x?} {:#04x?}), escape_ascii, escape_debug, lossy UTF-8, trimmed — and, for a refused request, the correct signature the reference model computes (either case); a match of ≥ 16 consecutive pattern bytes is a violation. Secrets are 16–64 random characters, or (one case in six) 2–7 characters from an alphabet nothing else in the workload uses, searched for as a whole (longer than 40: the provider's key type refuses them), a quarter with white space, a quote, a backslash or a non-ASCII character at an edge; wrong signatures include prefixes and one-digit-off variants of the correct one (then only the complete correct signature counts); when a request is refused for another reason although the signature it presented is the correct one (stale, wrong scope, a required header not signed, a provider failure), errors and values that hold what the client sent are not held against the library, but every log record at debug level or above is searched for that signature. Distinct = distinct scanned cases by hash.".into(),
+        rule: "Taint scan. Every execution of W-sign / W-defect (no defect, each injector alone — a refusal at every rank incl. every provider failure kind —, random pairs; both carriers, all option sets) runs with a capturing log::Log at max level Trace. Scanned: the error's Display and Debug plus its alternate / hex-flavoured / width / precision renderings and its source() chain, {} {:#} {:80} {:.8} {:?} {:#?} {:x?} {:#x?} {:X?} of KSecretKey…KSigningKey and of KeyTooLongError (also boxed and converted), GetSigningKeyRequest/Response, SigV4AuthenticatorResponse, (unstable feature) CanonicalRequest, AuthParams, SigV4Authenticator, returned principal/session, and every captured log record of level Error/Warn/Info/Debug, including records emitted while keys are constructed and values formatted (trace records are counted and used only as the control); a quarter of the shards run with the logger at Debug, as a deployment would. Patterns: secret, 'AWS4'+secret, kDate, kRegion, kService, kSigning — raw, hex, HEX, separated hex (`:`/space/`0x`/`\\x`, found after separators are stripped), base64 (std / url-safe, three alignments), decimal and hex lists ({:?} {:x?} {:X?} {:02x?} {:#04x?}), escape_ascii, escape_debug, lossy UTF-8, trimmed — and, for a refused request, the correct signature the reference model computes (either case); a match of ≥ 16 consecutive pattern bytes is a violation. Secrets are 16–64 random characters, or (one case in six) 2–7 characters from an alphabet nothing else in the workload uses, searched for as a whole (longer than 40: the provider's key type refuses them), a quarter with white space, a quote, a backslash or a non-ASCII character at an edge; wrong signatures include prefixes and one-digit-off variants of the correct one (then only the complete correct signature counts); when a request is refused for another reason although the signature it presented is the correct one (stale, wrong scope, a required header not signed, a provider failure), errors and values that hold what the client sent are not held against the library, but every log record at debug level or above is searched for that signature (for refusals before the comparison — a stray Authorization parameter, a required header left unsigned, a provider failure — the generator supplies the signature that becomes valid once the defect is taken away). Distinct = distinct scanned cases by hash.".into(),
         assumptions: vec!["leaks shorter than 16 consecutive bytes of a pattern are not detected, except whole short secrets of 4–15 bytes".into(), "trace-level records are outside the statement".into()],
         extra: J::obj().set("calibrated_vectors", J::i(pre.unwrap_or(0) as i64)),
     };
